@@ -1,8 +1,10 @@
 #!/bin/bash
 # usage: tools/seed_check.sh <property> <patch.diff> [tier]
 # Applies a seeded change to /repo, runs the property's check, undoes the change.
+# The committed evidence file (from the unchanged tree) is preserved.
 P="$1"; D="$2"; T="${3:-quick}"
 cd /verif
+cp evidence/$P.json /tmp/evidence_$P.json.bak 2>/dev/null
 git -C /repo apply "$D" || { echo "patch does not apply"; exit 2; }
-trap 'git -C /repo checkout -- .' EXIT
+trap 'git -C /repo checkout -- .; cp /tmp/evidence_'$P'.json.bak /verif/evidence/'$P'.json 2>/dev/null; rm -f /tmp/evidence_'$P'.json.bak' EXIT
 ./check "$P" "$T" ${4:-} 2>&1 | grep -E "^(VIOLATION|RESULT|INCONCLUSIVE|KNOWN|  harness)" | head -${LINES_MAX:-12}
